@@ -55,7 +55,7 @@ BODIES = [b"abc", b"ab", b"3\r\nabc\r\n0\r\n\r\n", b"3\r\nab", b"c\r\n0\r\n\r\n"
 
 MENU = {
     "Prepare": ["header %s %s" % (hx(b"x-a"), hx(b"b")), "despite", "proceed", "q_method"],
-    "SendRequest": ["write_head #100000", "write_head #12", "write_head #40", "q_can_proceed", "proceed", "q_uri"],
+    "SendRequest": ["write_head #100000", "write_head #12", "write_head #40", "q_can_proceed", "proceed", "q_uri", "headers_map"],
     "Await100": ["raw_try100 %s" % hx(R100), "raw_try100 %s" % hx(R403), "raw_try100 %s" % hx(R403F), "raw_try100 %s" % hx(b"HTTP/1.1 1"),
                  "raw_try100 %s" % hx(b"HTTP/1.1 200 OK\r\nX: y\r\n"), "raw_try100 %s" % hx(b"garbage\r\n\r\n"), "raw_try100 x", "q_keep_await", "proceed"],
     "SendBody": ["write_body %s #100" % hx(b"hi"), "write_body %s #3" % hx(b"hi"), "write_body x #100", "write_body x #3", "direct #1", "direct #2",
@@ -215,6 +215,15 @@ def oracle(script, obs):
     took_flow = False
     n_some = 0
     sb_touched = False
+    # a Content-Length body: bytes accounted for so far, and whether the body must by now be reported finished (usable SendBody state:
+    # once everything is sent and the end signalled, the flow must be able to leave the state)
+    sized = None
+    if not any(k == "transfer-encoding" for k, v in headers):
+        for k, v in headers:
+            if k == "content-length":
+                sized = int(v)
+    accounted = 0
+    must_finish = False
     for i, (op, o) in enumerate(zip(ops, obs)):
         p = op.split(" ")
         if o == "panic":
@@ -230,6 +239,9 @@ def oracle(script, obs):
             despite = True
         if p[0] == "q_can_proceed":
             last_can = (o == "true")
+            if tag == "SendBody" and must_finish and not last_can:
+                return ["op %d: all %d body bytes are accounted for and the end was signalled, but SendBody does not report the body finished "
+                        "(the flow can never leave the state)" % (i, sized)]
             if tag == "SendBody" and not sb_touched and last_can:
                 return ["op %d: SendBody entered with the body already reported finished (the flow that advanced is not usable: "
                         "nothing was written and the end was not signalled)" % i]
@@ -240,6 +252,15 @@ def oracle(script, obs):
             if not sb_touched and p[0] == "write_body" and len(unhex(p[1])) > 0 and o.startswith("err BodyContentAfterFinish"):
                 return ["op %d: first body write in SendBody refused as 'after finish' (the flow that advanced is not usable)" % i]
             sb_touched = True
+            if sized is not None:
+                if p[0] == "write_body" and o.startswith("ok "):
+                    accounted += unnum(o.split(" ")[1])
+                    if accounted == sized and (sized > 0 or len(unhex(p[1])) == 0):
+                        must_finish = True
+                elif p[0] == "direct" and o == "ok":
+                    accounted += unnum(p[1])
+                    if accounted == sized and sized > 0:
+                        must_finish = True
         if p[0] == "raw_try100":
             data = unhex(p[1])
             if o == "ok #0" and (data.startswith(b"HTTP/1.1 403") or data.startswith(b"HTTP/1.1 200 OK\r\nX: y\r\n")):
@@ -257,6 +278,8 @@ def oracle(script, obs):
                 cur_method = "GET" if resp_bytes is None or not resp_bytes.startswith(b"HTTP/1.1 307") else cur_method
             despite = False
             refused = False
+            sized = None
+            must_finish = False
             resp_bytes = None
             n_some = 0
             last_can = None
@@ -283,6 +306,8 @@ def oracle(script, obs):
             elif tag == "SendBody":
                 if last_can is not None and last_can != (o != "stay"):
                     return ["op %d: readiness %s but advancing gave %s" % (i, last_can, o)]
+                if must_finish and o == "stay":
+                    return ["op %d: all %d body bytes are accounted for and the end was signalled, but proceed() does not leave SendBody" % (i, sized)]
                 if o != "stay":
                     want = "RecvResponse"
             elif tag == "RecvResponse":
